@@ -1158,7 +1158,9 @@ def generate(outdir, stub=None, probe=False, nohints=None):
             rec.attrs["mode"] = "plain"
             # type invariants declared in the overlay apply to functions it does not know: required on entry, and for
             # `&mut self` re-established on exit
-            if fn.impl is not None:
+            # (only for functions callable from outside: `pub` or a trait method; a private helper may be meant for
+            #  intermediate states and simply has no contract -- its failures are "needs contract", see props.report)
+            if fn.impl is not None and (fn.node.get("vis", "") == "pub" or fn.impl.get("trait")):
                 tkey = fn.key.rsplit("::", 1)[0].replace("&mut ", "").replace("&", "")
                 recvs = [i for i in fn.node["inputs"] if i["receiver"]]
                 for mk, lines in mods_extra.items():
@@ -1274,6 +1276,8 @@ def generate(outdir, stub=None, probe=False, nohints=None):
     elif missing and os.environ.get("PQ_STRICT"):
         die("functions without overlay record (neither under contract nor listed as unverified): " + ", ".join(missing))
     for k, rec in recs.items():
+        if not rec.used and rec.attrs.get("optional"):
+            continue    # contract kept ready for a function the source may introduce (overrides of std defaults)
         if not rec.used:
             die("overlay: no such function in the source: %s (%s)" % (k, rec.origin))
 
